@@ -267,6 +267,9 @@ package v1
 //@   ensures [C01.newfk.np] result1 == nil ==> (len(result.noncePrefix) == NoncePrefixLength
 //@        && (forall i :: 0 <= i && i < 7 ==> result.noncePrefix[i] == rand.Reader.data[old(rand.Reader.pos) + 32 + i]))
 //@   ensures [C01.newfk.derived] result1 == nil ==> (result.cipher == cipher && len(result.headerKey) == 32 && len(result.payloadKey) == 32)
+// the file key is handed to the caller's WrapKeyFn: it must not carry live state (the nonce prefix) in its spare capacity,
+// where an appending callback would overwrite it after the payload key has been derived
+//@   ensures [C01.newfk.nospare] result1 == nil ==> cap(result.fileKey) == len(result.fileKey)
 
 //@ func (fileKey).GetFileKey
 //@   tags C01 C07 C08
@@ -350,7 +353,9 @@ package v1
 //@   at call Get#0 ghost iseof = false
 //@   at before call Read#0 assert [C08.own.read] !released[(*buf).base]
 //@   at call Read#0 ghost srcerr = res1
-//@   at call Is#0 ghost iseof = res0
+// end of input is the io.EOF sentinel itself (io.Reader: "callers will test for EOF using =="); any other error of the
+// source, including one that wraps io.EOF, has to surface on the output stream
+//@   at call Read#0 ghost iseof = (res1 == io.EOF)
 //@   at before call processSegmentFn#0 assert [C08.own.process] !released[(*buf).base]
 //@   at before call processSegmentFn#0 assert [C01.split.args] arg1.base == (*buf).base && arg1.off == (*buf).off && len(arg1) == n && arg2 == segment && arg3 == done
 //@   at before call processSegmentFn#0 assert [C01.split.data] n > 0 && n <= segmentSize && (forall k :: 0 <= k && k < n ==> (*buf)[k] == in.data[base + k])
@@ -388,7 +393,7 @@ package v1
 //@   loop 0 invariant 0 <= nacc && ncall == nacc && ncall <= 4294967296
 //@   loop 0 invariant [C02.nowrap] !done ==> (segment == ncall && ncall <= 4294967295)
 //@   loop 0 invariant in.pos == base + (hasCarryover ? 1 : 0) && (hasCarryover ==> (!done && carryover == in.data[base]))
-//@   loop 0 invariant (srcerr != nil ==> iseof) && (srcerr == io.EOF ==> in.pos == in.total) && (ncall > 0 ==> base > old(in.pos))
+//@   loop 0 invariant (iseof <==> srcerr == io.EOF) && (srcerr != nil ==> iseof) && (srcerr == io.EOF ==> in.pos == in.total) && (ncall > 0 ==> base > old(in.pos))
 //@   loop 0 invariant done ==> (nacc > 0 && clast[nacc - 1] && iseof)
 //@   loop 0 invariant base == (ncall == 0 ? old(in.pos) : coff[ncall - 1] + clen[ncall - 1])
 //@   loop 0 invariant forall i :: 0 <= i && i < ncall ==> cnum[i] == i
@@ -398,7 +403,7 @@ package v1
 //@   loop 1 invariant 0 <= n && n <= segmentSize + 1 && !hasCarryover && in.pos == base + n && in.pos <= in.total && out.cstate == 0
 //@   loop 1 invariant buf != nil && len(*buf) == 65553 && fresh(*buf) && !released[(*buf).base]
 //@   loop 1 invariant forall k :: 0 <= k && k < n ==> (*buf)[k] == in.data[base + k]
-//@   loop 1 invariant (err != nil ==> err == srcerr) && (err == nil ==> (srcerr == nil || iseof)) && (srcerr == io.EOF ==> in.pos == in.total)
+//@   loop 1 invariant (iseof <==> srcerr == io.EOF) && (err != nil ==> err == srcerr) && (err == nil ==> (srcerr == nil || iseof)) && (srcerr == io.EOF ==> in.pos == in.total)
 
 // The deferred func(){ BufPool.Put(buf) } of readHeader.
 //@ func readHeader$1
@@ -489,6 +494,7 @@ package v1
 //@ func Encrypt
 //@   tags C01 C07 C08
 //@   requires rand.Reader != nil
+//@   requires in == nil || (0 <= in.pos && in.pos <= in.total)
 //@   modifies rand.Reader.pos
 //@   ensures [C01.enc.result] (result1 == nil ==> result != nil) && (result1 != nil ==> result == nil)
 //@   ensures [C01.enc.options] (in == nil || opts.WrapKeyFn == nil || opts.KeyName == "" || opts.Algorithm == "" || !kaCanon(kaResolve(opts.Algorithm))) ==> result1 != nil
